@@ -1724,7 +1724,7 @@ def gen_dseq_exh(chk):
             for b in forms:
                 for j, mid in enumerate(DSEQ_BETWEEN):
                     k += 1
-                    if not thorough and j != 1 and j != k % len(DSEQ_BETWEEN):
+                    if not thorough and j != 1 and j != (k // len(DSEQ_BETWEEN)) % len(DSEQ_BETWEEN):
                         continue
                     V = 2 + k % 2
                     T = 2 + (k // 2) % 2 if V == 2 or bsz != 3 else 2
@@ -1744,8 +1744,8 @@ def _g_dseq(rng):
     shapes = [[1], [2], [3], [2, 1]] + ([[2, 2]] if bsz is not None else [])
     ops = []
     for _ in range(rng.randint(3, 9)):
-        kind = rng.choice(["sup"] * 4 + ["edit_sup"] * 3 + ["sample"] * 2 + ["lp_sample"] * 2 + ["lp_sup"] * 2 +
-                          ["edit_sample", "edit_lp", "clear", "has"])
+        kind = rng.choice(["sup"] * 4 + ["edit_sup"] * 3 + ["sample"] * 3 + ["lp_sample"] * 3 + ["lp_sup"] * 2 +
+                          ["edit_sample"] * 2 + ["edit_lp"] * 2 + ["clear", "has"])
         if kind == "sup":
             ops.append(["sup", rng.choice(list(SUP_FORMS))])
         elif kind == "edit_sup":
@@ -2042,14 +2042,25 @@ def run(chk, cases=None):
         "dist call history on ONE object (cache on/off): log_prob of an edited COPY of the sample (judged by Model.dist_log_prob and by "
         "the definition), the original again, the same value as int32 / float64 / non-contiguous, a second sample (scores as its own "
         "walks, the first sample still as its own), and - known finding K8 when cache_samples=True - after the caller edited the sample "
-        "or a returned log-prob tensor in place; greedy with a non-last blank (positive and negative index) and ragged in_lens incl. 0")
+        "or a returned log-prob tensor in place; greedy with a non-last blank (positive and negative index) and ragged in_lens incl. 0. "
+        "Round-4 streams (drawn last): exh-ps-order / rb-ps-order = packed input in EVERY legal PackedSequence layout: for each length "
+        "pattern every longest-first sorted_indices (tied lengths in any order; PackedSequence built by hand, pad_packed_sequence "
+        "round-trip asserted), torch's own packing, enforce_sorted=True input (sorted_indices None), hyp time- and batch-major, "
+        "all entry points; same terms (Model.slp_ps with the PackedSequence's own indices, check_pack, spec, packed==padded). "
+        "exh-dseq / rb-dseq = call sequences on ONE distribution object over enumerate_support (default/positional/keyword, expand "
+        "True/False, every ordered pair), sample, log_prob, clear_cache, has_enumerate_support with in-place edits of every tensor "
+        "handed out earlier (supports, samples, log-probs): each enumerate_support result vs Model.enumerate_support (shape: one copy "
+        "per batch element iff expand), each log_prob vs Model.dist_log_prob and the walks' log-probs, mass over the support == 1, "
+        "samples in the support")
     chk.assumptions += [
         "torch.log_softmax (float64) is an oracle: its result is data for the model (regime T of DESIGN.md section 3); for float32 "
         "inputs the oracle is the float64 log_softmax of the same (exactly representable) logits",
         "torch.multinomial never returns a zero-probability index (scripted draws respect this)",
         "the language model is a per-element function of (batch index, prefix); RandomWalk.update_log_probs_for_step is the default",
         "max_iters=None is modelled as 'no limit' (the code uses 2^30)",
-        "PackedSequence inputs are those torch's pack_padded_sequence produces; hyp covers the longest sequence",
+        "PackedSequence inputs are those torch's pack_padded_sequence produces, or (streams *-ps-order) the same data/batch_sizes with "
+        "any other longest-first sorted_indices and its inverse, which pad_packed_sequence maps back to the same padded tensor; hyp "
+        "covers the longest sequence",
         "scripted RandomWalk / random_walk_advance: torch.multinomial cannot be replaced inside TorchScript, so the real generator draws "
         "and the draws are read back from the returned paths (the model then re-runs the walk on them and checks every cell)",
         "K8 (known_findings.d/C07.json): with cache_samples=True an in-place edit of the sample (or of a returned log-prob tensor) makes "
